@@ -98,7 +98,7 @@ def oracle(rc, st):
     pos = {}
     for i, m in enumerate(msgs):
         pos[(m["task_uuid"], tuple(m["task_level"]))] = i
-    O.account(msgs, rc.model)
+    O.account(msgs, rc.model, lenient=True)
     # (a MemoryLogger stores messages unserialized, so field contents are not compared with the model here)
     tasks = list(Parser.parse_stream(msgs))
     written = {}         # (uuid, prefix) -> WrittenAction
@@ -166,10 +166,10 @@ def oracle(rc, st):
         tmp = list(msgs)
         LoggedAction.of_type(tmp, T0)
         del tmp
-        tmp2 = [dict(m) for m in msgs]
-        own = set(id(m) for m in tmp2)
+        # (the second list's messages are told apart by value, not identity: a helper may hand out copies)
+        tmp2 = [dict(m, c17_probe="second list") for m in msgs]
         for la in LoggedAction.of_type(tmp2, T0):
-            if id(la.start_message) not in own:
+            if la.start_message.get("c17_probe") != "second list":
                 raise Violation("of_type_stale", "of_type() on a fresh list returned actions built from another list's messages")
         rc.probe("recycled_list_queried")
     atypes = sorted(set(a.atype for a in rc.model.all_actions()))
@@ -190,13 +190,13 @@ def oracle(rc, st):
                                 T, len(las), len(want)))
         for la, si in zip(las, starts):
             sm = msgs[si]
-            if la.start_message is not sm:
+            if la.start_message != sm:
                 raise Violation("of_type_order", "of_type(%r): entries are not in emission order of their starts" % T)
             wa = written[(sm["task_uuid"], tuple(sm["task_level"][:-1]))]
             compare(la, wa, "of_type(%r)[%d]" % (T, starts.index(si)))
             d = list(la.descendants())
             po = preorder(la)
-            if len(d) != len(po) or any(x is not y for x, y in zip(d, po)):
+            if len(d) != len(po) or any(x != y for x, y in zip(d, po)):
                 raise Violation("descendants", "descendants() is not the pre-order of the children tree")
             if la.type_tree() != type_tree(wa):
                 raise Violation("type_tree", "type_tree() %r != %r" % (la.type_tree(), type_tree(wa)))
@@ -225,7 +225,7 @@ def oracle(rc, st):
                                 "assertHasAction(%r, succeeded=%r, %r, %r) %s, first entry is succeeded=%r %r %r" % (
                                     T, exp_succ, sf[0], ef[0], "passed" if passed else "failed", first.succeeded,
                                     first.start_message, first.end_message))
-            if passed and r is not None and (r.start_message is not first.start_message):
+            if passed and r is not None and (r.start_message != first.start_message):
                 raise Violation("assert_has_action", "assertHasAction returned a different action than the first")
     mtypes = sorted(set(m.get("message_type") for m in msgs if "message_type" in m))
     for mt in mtypes:
@@ -234,7 +234,7 @@ def oracle(rc, st):
             arg = rc.interp.types[mt]
         lms = LoggedMessage.of_type(msgs, arg)
         want = [m for m in msgs if m.get("message_type") == mt]
-        if len(lms) != len(want) or any(lm.message is not w for lm, w in zip(lms, want)):
+        if len(lms) != len(want) or any(lm.message != w for lm, w in zip(lms, want)):
             raise Violation("message_of_type", "LoggedMessage.of_type(%r) returned %d entries, %d messages of that "
                             "type were logged (or out of order)" % (mt, len(lms), len(want)))
         tc = unittest.TestCase()
